@@ -35,6 +35,18 @@ CHECKS = {
         "(matrix named by its generic entry, exponent, padding).",
         technique="contract-based deductive verification: AST->VC symbolic execution of the real functions under pmap axioms, z3",
     ),
+    "C10": dict(
+        text=("Contracts on the real _fd_low_rank_pack/_fd_low_rank_unpack/_low_rank_pack/_low_rank_unpack (round trip of all six "
+              "fields pointwise for symbolic d, r with |r|+2<d, both signs; the internal asserts hold exactly under that "
+              "precondition and reject outside it), _precond_dim <=> _should_compress, the index selection of _low_rank_root "
+              "(kept columns are the |r| largest / smallest-unpadded eigh columns; symbolic d, r, padding), and the compressed "
+              "branch of Preconditioner._precondition_block against the dense matrix c(I-VV')+V diag(e) V' as a polynomial "
+              "identity with every tensor entry symbolic at small concrete sizes (d=4, r=+-1, gradient rank 1..3)."),
+        design="7/C10",
+        note=TB + " eigh enters as an opaque sorted decomposition; the dense-equivalence obligations fix the dimensions to "
+        "small constants (entries symbolic) and are discharged by monomial normalisation.",
+        technique="contract-based deductive verification: AST->VC symbolic execution of the real functions, z3 (incl. polynomial normalisation)",
+    ),
 }
 
 NA_REASON = "check not built yet (build in progress); the planned contract kernel is described in DESIGN.md section 7"
